@@ -69,9 +69,20 @@ def key_id(t, limit, fit, method, bm):
 # ------------------------------------------------------------------------------------------
 # the real series
 # ------------------------------------------------------------------------------------------
+# the 3x3 hexagonal patch without its cell 7: cell 6 then hangs on the tissue by a single neighbour, so the series has an
+# interface (3|6) whose vertices all belong to two cells but whose two ends are border junctions (external by the rule,
+# never tabulated) next to the ordinary internal and border interfaces
+CELL_SUBSET = [0, 1, 2, 3, 4, 5, 6, 8]
+
+
+def base_cells(base):
+    return [base["cells"][i] for i in CELL_SUBSET]
+
+
 def series_desc(gseed):
     """abstract description of the 3-frame series (complete input: model coordinates per frame, bulges)"""
     base = catalogue.load("hex33")
+    base = dict(base, cells=base_cells(base))
     rng = random.Random(7919 * gseed + 1234)
     pos0 = {i + 1: (float(p[0]), float(p[1])) for i, p in enumerate(base["pos"])}
     edges, _ = tissue.base_edges(base["cells"])
@@ -93,6 +104,7 @@ def make_frames(sd):
     """fresh Vertex/SmallEdge/Cell/Frame objects (never shared between sessions)"""
     import forsys as fs
     base = catalogue.load(sd["base"])
+    base = dict(base, cells=base_cells(base))
     pos0 = {i + 1: (float(p[0]), float(p[1])) for i, p in enumerate(base["pos"])}
     bulge = {(a, b): s for a, b, s in sd["bulge"]}
     disp = {v: (dx, dy) for v, dx, dy in sd["disp"]}
